@@ -26,12 +26,12 @@ def relayout(text, rng, comments=0.0, keep_comment_lines=True):
             n += 1
             # a third of the inserted comments repeat a text used before (a `// reserved`
             # on several fields is ordinary): comments are distinct tokens, not distinct texts
-            c = rng.choice(["// reserved", "//", "// c1"]) if rng.random() < 0.34 else "// c%d" % n
+            c = rng.choice(["// reserved", "//", "// c1", "// 注释 – ünïcode", "//\tTAB and trailing blanks   "]) if rng.random() < 0.4 else "// c%d" % n
             if rng.random() < 0.5:
                 out.append(" " + c + "\n")
             else:
                 out.append("\n" + c + "\n")
-        out.append(rng.choice([" ", " ", "  ", "\t", "\n", "\n\n", " \n  "]))
+        out.append(rng.choice([" ", " ", "  ", "\t", "\n", "\n\n", " \n  ", "\r\n", " \r\n\t"]))
     return "".join(out)
 
 
@@ -88,4 +88,7 @@ FIXED_TEXTS = ["", " ", "\n", "// only a comment", "// c\n", "zzz packet A { u8 
                # comment texts repeat; comments are distinct tokens
                "// reserved\nroot packet A {\n    u8 a, // reserved\n    u8 b, // reserved\n    // reserved\n    u8 c, //\n    u8 d, //\n}\n// reserved\n",
                "root packet A {\n    u16 len @lengthOf(b) `at most 100% of %d, %s`,\n    B b `50%% of %v`,\n    u32 ck @calculatedFrom(\"CRC32\") `%x %!`,\n}\npacket B {\n    @tag(1)\n    u8 x `%`,\n}\nMetaData M {\n    u8 m `100%`,\n}\n",
+               # CRLF line ends, no newline at the end, UTF-8 in docs and comments, a byte-order mark
+               "root packet A {\r\n    u8 x `说明 é`, // 注释\r\n    // own line\r\n    string s,\r\n}\r\npacket B {\r\n}",
+               "// only CRLF\r\npacket A {\r\n}\r\n", "packet A {\n    u8 x `no newline at the end`,\n} // end",
                "// fill ratio 0-100%! %d of %s, 50%% \\n\n// second\nroot packet Order {\n    u32 qty `filled %d of total, in %`, // 100%\n    string note `tab\there \"quoted\" $HOME`,\n}\n"]
